@@ -12,6 +12,9 @@
 (*   xmlnum : 0, 1, -1, +1, 2^31-1, 2^32-1, 2^32, 2^64, "-1", "", "abc"    *)
 (*   xmlref : A0, XFE1, A1048577, A, 1, ZZZZZZZZZZ1, "A1:", A99999999999, ""*)
 (*   part   : truncate at 0, 1, 1/4, 1/2, len-1; drop the part             *)
+(*   reccut : one BIFF record truncated to its first k payload bytes,       *)
+(*            k = 0..47 (a record ending inside any of its header fields)   *)
+(*   xmltag : one XML tag (start / end / empty-element) deleted or doubled  *)
 (*   rec    : one BIFF / BIFF12 record with a consistent length field:     *)
 (*            1 / 5 stray bytes at the end or before the last two payload  *)
 (*            bytes, 1 / 2 missing bytes, record duplicated, record dropped *)
@@ -26,6 +29,7 @@ NF == Len(Fields)
 VARIABLES seed, faults, done
 vars == <<seed, faults, done>>
 CONSTANT MaxFaults
+MaxCls == 48          \* the largest class count of any field kind (reccut: 48 cut positions)
 
 Init == seed = 0 /\ faults = <<>> /\ done = FALSE
 
@@ -42,8 +46,8 @@ AddFault(i, c) ==
   /\ faults' = Append(faults, <<Fields[i].f, c, i>>)
   /\ UNCHANGED done
 End == ~done /\ faults # <<>> /\ done' = TRUE /\ UNCHANGED <<seed, faults>>
-Next == \/ (faults = <<>> /\ \E i \in 1..NF : \E c \in 1..11 : AddFault(i, c))
-        \/ (faults # <<>> /\ \E d \in 1..Window : \E c \in 1..11 : AddFault(faults[Len(faults)][3] + d, c))
+Next == \/ (faults = <<>> /\ \E i \in 1..NF : \E c \in 1..MaxCls : AddFault(i, c))
+        \/ (faults # <<>> /\ \E d \in 1..Window : \E c \in 1..MaxCls : AddFault(faults[Len(faults)][3] + d, c))
         \/ End
 Spec == Init /\ [][Next]_vars
 
